@@ -21,7 +21,7 @@ def sh(cmd, cwd=None, env=None, timeout=2400):
 
 def main():
     ids = sys.argv[1:] or sorted(os.listdir(os.path.join(VERIF, 'seeded')))
-    base = '/tmp/seedregress_%d' % os.getpid()
+    base = '/tmp/sregr_%d' % os.getpid()
     os.makedirs(base)
     rows = []
     try:
